@@ -404,6 +404,7 @@ func runC18(p *Program, e *Engine, r *Result, tier string) {
 	}
 	c18ReleaseClearsSeen(a, kf, seenT, reader, "C18.6")
 	c18RemoveBeforeCreate(a, "C18.7")
+	c18RescanDecision(a, kf, "C18.10")
 	// (8) every descriptor the backend opens is registered for at least NOTE_DELETE and NOTE_RENAME: removal and rename of
 	// an entry (file or subdirectory) are reported whatever else is asked for
 	_, ntBy := nativeNames(a, "NOTE_")
@@ -666,4 +667,154 @@ func c18SeenTable(a *An, kf *kqFacts) *types.Var {
 		}
 	}
 	return seenT
+}
+
+// c18RescanDecision (C18.10 / C02.7): when a directory that is already watched internally (as an entry of its parent)
+// is added by the user, its existing entries must be listed and marked seen - otherwise the next change in it reports a
+// Create for every file that was there all along. The decision reads the notification flags the watch had BEFORE this
+// Add; the Add also overwrites those flags with the new ones. Rule: no bit test of the record's flags field reads a
+// record that came back from a function that itself stores that field (the test would compare the new flags with
+// themselves and never ask for the listing). The field is found by type (the one uint32 field of the descriptor table's
+// record), the updaters by their store; nothing is taken by name.
+func c18RescanDecision(a *An, kf *kqFacts, rule string) {
+	m, ok := kf.fdTable.Type().Underlying().(*types.Map)
+	if !ok {
+		a.R.fail("anchor unresolved: descriptor table is not a map")
+		return
+	}
+	rec, ok := m.Elem().Underlying().(*types.Struct)
+	if !ok {
+		a.R.fail("anchor unresolved: the descriptor table's record is not a struct")
+		return
+	}
+	fIdx := -1
+	for i := 0; i < rec.NumFields(); i++ {
+		if b, isB := rec.Field(i).Type().Underlying().(*types.Basic); isB && b.Kind() == types.Uint32 {
+			if fIdx >= 0 {
+				a.R.fail("anchor unresolved: the watch record has more than one uint32 field (which one holds the directory's flags?)")
+				return
+			}
+			fIdx = i
+		}
+	}
+	if fIdx < 0 {
+		a.R.fail("anchor unresolved: the flags field of the watch record")
+		return
+	}
+	isRec := func(t types.Type) bool { return types.Identical(deref(t).Underlying(), rec) }
+	// updaters: functions that store the flags field and hand a record back
+	updaters := map[*ssa.Function]bool{}
+	for _, fn := range a.P.srcFuncs(a.P.Main) {
+		stores := false
+		for _, b := range fn.Blocks {
+			for _, in := range b.Instrs {
+				if st, isSt := in.(*ssa.Store); isSt {
+					if fa, isFA := st.Addr.(*ssa.FieldAddr); isFA && fa.Field == fIdx && isRec(fa.X.Type()) {
+						if _, isK := stripConv(st.Val).(*ssa.Const); !isK {
+							stores = true
+						}
+					}
+				}
+			}
+		}
+		if !stores {
+			continue
+		}
+		res := fn.Signature.Results()
+		for i := 0; i < res.Len(); i++ {
+			if isRec(res.At(i).Type()) {
+				updaters[fn] = true
+			}
+		}
+	}
+	fromUpdater := func(v ssa.Value) *ssa.Function {
+		v = stripConv(v)
+		if ex, isEx := v.(*ssa.Extract); isEx {
+			v = ex.Tuple
+		}
+		if u, isU := v.(*ssa.UnOp); isU && u.Op == token.MUL {
+			v = u.X
+		}
+		if c, isC := v.(*ssa.Call); isC && c.Call.StaticCallee() != nil && updaters[c.Call.StaticCallee()] {
+			return c.Call.StaticCallee()
+		}
+		return nil
+	}
+	n := 0
+	for _, fn := range a.P.srcFuncs(a.P.Main) {
+		if updaters[fn] {
+			continue
+		}
+		for _, b := range fn.Blocks {
+			for _, in := range b.Instrs {
+				bin, isBin := in.(*ssa.BinOp)
+				if !isBin || bin.Op != token.AND {
+					continue
+				}
+				for _, opnd := range []ssa.Value{bin.X, bin.Y} {
+					opnd = stripConv(opnd)
+					var base ssa.Value
+					var load ssa.Instruction
+					switch x := opnd.(type) {
+					case *ssa.Field:
+						if x.Field == fIdx && isRec(x.X.Type()) {
+							base, load = x.X, x
+						}
+					case *ssa.UnOp:
+						if fa, isFA := x.X.(*ssa.FieldAddr); isFA && x.Op == token.MUL && fa.Field == fIdx && isRec(fa.X.Type()) {
+							base, load = fa.X, x
+						}
+					}
+					if base == nil {
+						continue
+					}
+					n++
+					var culprit *ssa.Function
+					if al, isAl := base.(*ssa.Alloc); isAl {
+						// the record is a local variable: any whole-record store of an updater's result that can reach this load
+						if refs := al.Referrers(); refs != nil {
+							for _, r := range *refs {
+								st, isSt := r.(*ssa.Store)
+								if !isSt || st.Addr != ssa.Value(al) {
+									continue
+								}
+								if u := fromUpdater(st.Val); u != nil {
+									if st.Block() == load.Block() {
+										for _, q := range st.Block().Instrs {
+											if q == ssa.Instruction(st) {
+												culprit = u
+												break
+											}
+											if q == load {
+												break
+											}
+										}
+										if culprit == nil {
+											for _, sc := range st.Block().Succs {
+												if reachableFrom(sc, load.Block()) {
+													culprit = u // round a loop
+												}
+											}
+										}
+									} else if reachableFrom(st.Block(), load.Block()) {
+										culprit = u
+									}
+								}
+							}
+						}
+					} else if u := fromUpdater(base); u != nil {
+						culprit = u
+					}
+					wit := "the record tested is not the one handed back by a function that overwrites the flags"
+					if culprit != nil {
+						wit = "the flags tested come back from " + shortFn(culprit) + ", which has just stored the new flags into them: the test compares the new flags with themselves"
+					}
+					a.R.ob(rule, "flags-test@"+shortFn(fn), "a test of a watch's previous notification flags (the decision to list an already watched directory and mark its entries seen) reads them as they were before this Add overwrote them", a.P.instrPos(bin), culprit == nil, wit)
+				}
+			}
+		}
+	}
+	if n == 0 {
+		a.R.fail("anchor unresolved: no bit test of the watch record's flags field (the rescan decision of Add)")
+	}
 }
